@@ -2,14 +2,14 @@
 shared unit belong to it, and how a failed obligation is replayed against the real code."""
 
 C01_ARITH = [
-    r"^(zero_divisor_eval_error|undefined_eval_error|numerical_type_error|sub|arena_from_i64|arena_from_isize|arena_from_usize|Number_is_integer|Number_is_positive|idiv|remainder|ibig_rem_floor|modulus|int_floor_div|bitwise_complement|and|or|xor|shr|shl|gcd|binary_pow)::",
+    r"^(zero_divisor_eval_error|undefined_eval_error|numerical_type_error|sub|arena_from_i64|arena_from_isize|arena_from_usize|Number_is_integer|Number_is_positive|idiv|remainder|ibig_rem_floor|modulus|int_floor_div|bitwise_complement|and|or|xor|shr|shl|gcd|binary_pow|rdiv)::", r"^rational_from_number::(body|post#[123])$",
     r"^add::(body|post#[12])$", r"^mul::(body|post#1)$", r"^neg::(body|post#[12])$", r"^abs::(body|post#[12])$",
     r"^max::(body|post#[12])$", r"^min::(body|post#[12])$", r"^Number_sign::(body|post#[12])$",
     r"^Number_is_zero::(body|post#[12])$", r"^Number_is_negative::(body|post#[12])$", r"^int_pow::(body|post#[123])$",
     r"^lemma::",
 ]
 C02_ARITH = [
-    r"^(rnd_f|result_f|float_i_to_f|float_r_to_f|float|unary_float_fn_template|sin|cos|tan|log|exp|asin|acos|atan|float_fractional_part|float_integer_part|sqrt|atan2|Number_div|div|float_pow|pow|round|floor|ceiling|truncate|zero_divisor_eval_error|undefined_eval_error)::",
+    r"^(rnd_f|result_f|float_i_to_f|float_r_to_f|float|unary_float_fn_template|sin|cos|tan|log|exp|asin|acos|atan|float_fractional_part|float_integer_part|sqrt|atan2|Number_div|div|float_pow|pow|round|floor|ceiling|truncate|zero_divisor_eval_error|undefined_eval_error)::", r"^rational_from_number::(body|post#4)$",
     r"^add::(body|post#[34])$", r"^mul::(body|post#[23])$", r"^neg::(body|post#3)$", r"^abs::(body|post#3)$",
     r"^max::(body|post#3)$", r"^min::(body|post#3)$", r"^int_pow::(body|post#[14])$",
     r"^Number_is_zero::(body|post#3)$", r"^Number_is_negative::(body|post#3)$", r"^Number_sign::(body|post#3)$",
